@@ -21,7 +21,8 @@ THEOREMS = ["Kdf.Props.C09." + t for t in (
     "tryAlt_eq_spec", "doOp_eq_spec", "op_eq_composition", "conv_single_target", "conv_fail_unchanged",
     "inflight_distinct", "op_limit_conservative",
     # Kdf/Props/C09Read.lean: reads through a re-entrant get-page callback (model Kdf.Model.RCache), custom methods
-    "read_nesting_bounded", "read_hit_no_callback", "read_self_fetch_detected", "walk_custom_eq_spec")]
+    "read_nesting_bounded", "read_not_stuck", "read_nesting_le_slots", "filling_slot_never_chosen", "filling_slot_untouched",
+    "filling_marks_restored", "read_gives_back", "read_hit_no_callback", "read_self_fetch_detected", "walk_custom_eq_spec")]
 MODULES = ["Kdf.Props.C09", "Kdf.Props.C09Read"]
 GP_RUNAWAY = 200        # harness/s_sys.c gives up at this nesting of get-page callbacks
 
@@ -118,6 +119,8 @@ class Spec:
             self.mem.bad[(int(w[1]), int(w[2]))] = "nodata"
         elif k == "clr":
             self.mem.ovr.clear(); self.mem.bad.clear(); self.reent = ()
+        elif k == "newctx":
+            return "newctx lost=0"      # every buffer the callback delivered has been given back once the context is gone
         elif k == "reent":
             self.reent = () if w[1] == "off" else tuple(w[2].split(","))
         elif k == "rd":
@@ -747,6 +750,8 @@ def block_reent(rng, nops):
             a = rng.choice(pool)
             f(rng.choice(["conv 1 0 %d" % a, "op 2 0 %d ok" % a, "conv %d %d %d" % (rng.choice((0, 1, 2)), ras, a)]))
             f("newctx")
+    if L[-1] != "newctx":
+        f("newctx")                 # the context goes away: what it still held is given back, the ledger is reported
     return L
 
 
@@ -769,7 +774,20 @@ def gen(R, nb):
 
 
 # ------------------------------------------------------------------- property check
-NEST_BOUND = [GP_RUNAWAY]       # MAX_READ_NESTING of the working tree once run() has extracted it
+NEST_BOUND = [GP_RUNAWAY]       # bound on nested get-page callbacks of the working tree (set by sys_harness)
+
+
+def sys_harness(R):
+    """build harness/s_sys.c against the working tree; the nesting bound is what the tree's private header promises:
+    READ_CACHE_SLOTS when slots carry the `filling` mark, MAX_READ_NESTING if there is such a counter, else none"""
+    priv = open(os.path.join(kdf.REPO, "src/addrxlat/addrxlat-priv.h")).read()
+    m = re.search(r"struct read_cache_slot\s*\{(.*?)\n\};", priv, re.S)
+    mark = bool(m and re.search(r"\bfilling\s*;", m.group(1)))
+    n = re.search(r"#define\s+READ_CACHE_SLOTS\s+(\d+)", priv)
+    k = re.search(r"#define\s+MAX_READ_NESTING\s+(\d+)", priv)
+    NEST_BOUND[0] = int(n.group(1)) if (mark and n) else int(k.group(1)) if k else GP_RUNAWAY
+    lib, cflags = R.build_lib()
+    return R.build_harness("s_sys", ["s_sys.c"], lib=lib, cflags=cflags + (["-DKDF_SLOT_FILLING"] if mark else []))
 
 
 def split_obs(o):
@@ -784,6 +802,8 @@ def check_line(line, impl_obs, expect):
     w = line.split()
     if impl_obs.startswith("RUNAWAY"):
         return "the call never came back: %s (unbounded recursion)" % impl_obs
+    if w[0] == "newctx":
+        return None     # the give-back ledger is C15's to decide (tools/props/c15.py runs these blocks); here it is tied to the model
     if w[0] == "rd":
         t = impl_obs.split()
         kv = dict(x.split("=") for x in t if "=" in x)
@@ -845,7 +865,7 @@ def check_line(line, impl_obs, expect):
     return None
 
 
-PRODUCES = ("map", "op", "conv", "rd")
+PRODUCES = ("map", "op", "conv", "rd", "newctx")
 
 
 def evaluate(R, exe, lines, timeout=600):
@@ -897,7 +917,7 @@ SETUP = ("meth", "map", "ovr", "bad", "null", "rd", "newctx")
 def shrink(R, exe, block, fail_line, pos=None):
     """smallest script (setup lines of the block + the one failing operation) that still fails.
     A direct read (`rd`) depends on the reads before it (state of the read cache): only what precedes it is kept."""
-    if fail_line.split()[0] == "rd" and pos is not None:
+    if fail_line.split()[0] in ("rd", "newctx") and pos is not None:
         setup = [l for l in block[:pos] if l.split()[0] not in ("op", "conv")]
     else:
         setup = [l for l in block if l.split()[0] not in ("op", "conv", "rd", "newctx")]
@@ -958,20 +978,19 @@ def extract_chains(repo):
     m = re.search(r"#define\s+MAX_INFLIGHT\s+(\d+)", src)
     parts.append("max_inflight=%s" % (m.group(1) if m else "none"))
     priv = open(os.path.join(repo, "src/addrxlat/addrxlat-priv.h")).read()
-    for name in ("READ_CACHE_SLOTS", "MAX_READ_NESTING"):
-        m = re.search(r"#define\s+%s\s+(\d+)" % name, priv)
-        parts.append("%s=%s" % (name.lower(), m.group(1) if m else "none"))
+    m = re.search(r"#define\s+READ_CACHE_SLOTS\s+(\d+)", priv)
+    parts.append("read_cache_slots=%s" % (m.group(1) if m else "none"))
+    m = re.search(r"struct read_cache_slot\s*\{(.*?)\n\};", priv, re.S)
+    parts.append("filling_mark=%d" % bool(m and re.search(r"\bfilling\s*;", m.group(1))))
     return "chains " + " ".join(parts)
 
 
 # ----------------------------------------------------------------------------- run
 def run(R):
     proof = R.prove(MODULES, THEOREMS)
-    exe = R.build_harness("s_sys", ["s_sys.c"])
+    exe = sys_harness(R)
     facts_impl = extract_chains(kdf.REPO)
     facts_model = kdf.obs(R.run_driver("sys", "chains\n"))[0]
-    m = re.search(r"max_read_nesting=(\d+)", facts_impl or "")
-    NEST_BOUND[0] = int(m.group(1)) if m else GP_RUNAWAY
     nchunks, per = (3, 3000) if R.tier == "quick" else (60, 5000)
     kinds, nontriv, specd, nops, nimpl, ndropped, nblocks = {}, set(), 0, 0, 0, 0, 0
     reported = False
@@ -1005,7 +1024,7 @@ def run(R):
         # coverage accounting
         for j in range(min(len(impl), len(idx))):
             l = kept[idx[j]]
-            if l.split()[0] == "map" or impl[j].startswith("RUNAWAY"):
+            if l.split()[0] in ("map", "newctx") or impl[j].startswith("RUNAWAY"):
                 continue
             head, meas = split_obs(impl[j])
             t = head.split()
@@ -1058,15 +1077,13 @@ def run(R):
                           "PTE formats limited to pfn32/pfn64/ia32/ia32_pae/x86_64/riscv64/none",
                           "re-entrant get-page callbacks: the family that reads one 64-bit object per page through the same context (no translation "
                           "system) before delivering the page; whole conversions (op/conv) under such a callback are implementation-only: "
-                          "termination, nesting <= MAX_READ_NESTING, exactly-once/caps/pass-through monitors, not compared with model or specification",
+                          "termination, nesting <= READ_CACHE_SLOTS, exactly-once/caps/pass-through monitors, not compared with model or specification",
                           "naturally aligned page-table and array reads (unaligned cases are dropped before they reach the C code)"]
 
 
 def replay(R, path):
     rep = json.load(open(path))
-    exe = R.build_harness("s_sys", ["s_sys.c"])
-    m = re.search(r"max_read_nesting=(\d+)", extract_chains(kdf.REPO) or "")
-    NEST_BOUND[0] = int(m.group(1)) if m else GP_RUNAWAY
+    exe = sys_harness(R)
     lines = [l for l in rep["input"].split("\n") if l]
     kept, impl, model, expects, idx, rc, err, _ = evaluate(R, exe, lines, timeout=120)
     for j in range(len(idx)):
